@@ -37,6 +37,7 @@ type Edge struct {
 	From  string `json:"from"` // node.port
 	To    string `json:"to"`
 	Param bool   `json:"param,omitempty"`
+	UseTo bool   `json:"use_to,omitempty"` // wire with OutPort.To(in-port) instead of InPort.From(out-port)
 }
 
 type Desc struct {
@@ -340,8 +341,12 @@ func buildAndRun(d Desc) {
 	for _, e := range d.Edges {
 		fn, fp := splitPort(e.From)
 		tn, tp := splitPort(e.To)
-		if e.Param {
+		if e.Param && e.UseTo {
+			procs[fn].OutParamPorts()[fp].To(procs[tn].InParamPorts()[tp])
+		} else if e.Param {
 			procs[tn].InParamPorts()[tp].From(procs[fn].OutParamPorts()[fp])
+		} else if e.UseTo {
+			procs[fn].OutPorts()[fp].To(procs[tn].InPorts()[tp])
 		} else {
 			procs[tn].InPorts()[tp].From(procs[fn].OutPorts()[fp])
 		}
